@@ -129,6 +129,11 @@ func (e *Env) tr(ex Expr) Val {
 		return e.selector(n)
 	case EIndex:
 		base := e.tr(n.X)
+		if base.T == nil {
+			// raw SMT array (ghost set such as $visited)
+			k := e.tr(n.I)
+			return boolVal(sel(base.S, k.S))
+		}
 		switch u := base.T.Underlying().(type) {
 		case *types.Map:
 			k := e.coerce(e.tr(n.I), u.Key())
